@@ -1165,9 +1165,13 @@ func (l *LocalCloseStart) ProcessEvent(event ProtocolEvent, env *Environment,
 		// value.
 		localScript := l.LocalDeliveryScript
 
+		// The transaction we sign must carry the very lock time we
+		// announce in closing_complete below, as that is the lock time
+		// the remote party will use to build the version it signs.
 		var closeOpts []lnwallet.ChanCloseOpt
 		closeOpts = append(closeOpts,
 			lnwallet.WithCustomSequence(mempool.MaxRBFSequence),
+			lnwallet.WithCustomLockTime(env.BlockHeight),
 			lnwallet.WithCustomPayer(lntypes.Local),
 		)
 
@@ -1564,9 +1568,12 @@ func (l *LocalOfferSent) ProcessEvent(event ProtocolEvent, env *Environment,
 			return nil, err
 		}
 
+		// We complete the very transaction we signed in
+		// LocalCloseStart, which carries the lock time we announced.
 		var closeOpts []lnwallet.ChanCloseOpt
 		closeOpts = append(closeOpts,
 			lnwallet.WithCustomSequence(mempool.MaxRBFSequence),
+			lnwallet.WithCustomLockTime(env.BlockHeight),
 			lnwallet.WithCustomPayer(lntypes.Local),
 		)
 
